@@ -316,8 +316,14 @@ FN = {  # name -> table {(from, to): factor}
 }
 
 
-def generic_case(chk, h, label):
-    """h: sequence of ('reg'|'rem', fname)"""
+def generic_case(chk, h, label, bound=False):
+    """h: sequence of ('reg'|'rem', fname); bound: every registration and
+    removal passes a freshly made bound method of the callable (equal to,
+    but not the same object as, the one passed before)"""
+    ref = (lambda f: ["a", V("$" + f), "conv"]) if bound else \
+        (lambda f: V("$" + f))
+    if bound:
+        label += "-bound-method"
     steps = [{"cls": {"name": "Noref", "kw": {}}, "id": "Noref"}]
     for s in ("t0", "t1", "t2"):
         steps.append({"e": M(V("Noref"), "new_unit", ["s", s])})
@@ -345,7 +351,7 @@ def generic_case(chk, h, label):
         k = "a%d" % i
         if act == "reg":
             steps.append({"k": k, "e": M(V("Noref"), "register_converter",
-                                         V("$" + f))})
+                                         ref(f))})
             if f in reg:
                 expected[k] = dict(kind="ok", again=True)
             else:
@@ -353,7 +359,7 @@ def generic_case(chk, h, label):
                 expected[k] = dict(kind="ok")
         else:
             steps.append({"k": k, "e": M(V("Noref"), "remove_converter",
-                                         V("$" + f))})
+                                         ref(f))})
             if f in reg:
                 reg.remove(f)
                 expected[k] = dict(kind="ok")
@@ -429,7 +435,8 @@ def run(chk, R, tier, seed):
               "rejected removals (generic)",
               "answered by an older converter (newer returned None)",
               "histories|money-exhaustive", "histories|money-random",
-              "histories|generic-exhaustive", "histories|generic-random"):
+              "histories|generic-exhaustive", "histories|generic-random",
+              "histories|generic-exhaustive-bound-method"):
         chk.require(c)
     L = 5 if tier == "quick" else 6
     hs = enum_histories(L)
@@ -449,9 +456,13 @@ def run(chk, R, tier, seed):
     for n in range(1, GL + 1):
         for h in itertools.product(acts, repeat=n):
             cases.append(generic_case(chk, h, "generic-exhaustive"))
+            if n <= 3:
+                cases.append(generic_case(chk, h, "generic-exhaustive",
+                                          bound=True))
     chk.exhaustive["generic histories up to length %d (3 callables)" % GL] \
         = True
     for _ in range(150 if tier == "quick" else 3000):
         h = tuple(rng.choice(acts) for _ in range(rng.randint(4, 25)))
-        cases.append(generic_case(chk, h, "generic-random"))
+        cases.append(generic_case(chk, h, "generic-random",
+                                  bound=rng.random() < 0.3))
     run_cases(chk, R, cases, preload=("quantity",))
